@@ -373,5 +373,18 @@ def rsInterpolate (rho : α) (frm to : Pose α) (t : α) : Option (Pose α) :=
   else if t ≤ 0 then some frm
   else (reedsSheppStates rho frm to).map (fun p => rsInterpPath rho frm p t)
 
+/-- the caching overload `interpolate(from, to, t, firstTime, path, state)` called repeatedly with the same `firstTime` /
+`path` variables (see `Dubins.interpCached`) -/
+def rsInterpCached (rho : α) (frm to : Pose α) : Option (RSPath α) → List α → List (Option (Pose α))
+  | _, [] => []
+  | some P, t :: ts => some (rsInterpPath rho frm P t) :: rsInterpCached rho frm to (some P) ts
+  | none, t :: ts =>
+    if 1 ≤ t then some to :: rsInterpCached rho frm to none ts
+    else if t ≤ 0 then some frm :: rsInterpCached rho frm to none ts
+    else
+      match reedsSheppStates rho frm to with
+      | some P => some (rsInterpPath rho frm P t) :: rsInterpCached rho frm to (some P) ts
+      | none => [none]
+
 end
 end OmplModel.RS
